@@ -11,6 +11,7 @@
 //! tokens  t,t,...                (signed hex)     watched tokens
 //! dcs     d,d,...                (hex)            watched datacenters
 //! Pb <value bytes hex | N (key absent)> | none | a:<first>:<last>:<host.shard,..> | rDeserialization:<leaf kind> | rWrongTokenRange | rShardNum   (from_custom_payload alone)
+//! Pe <a> <b> <host.shard,..> | <value bytes of the crate's CQL serialiser> <value bytes of the harness' encoder> <decode tag of those>
 //! op      B/<ks>.<tb>/<value bytes hex | N>/<known nodes>     (result tag as for Pb)
 //!         L/<ks>.<tb>/<a>/<b>/<h>.<shard>,.. | -/<known nodes>
 //!         M/<keyspaces>/<removed hosts>/<current nodes>/<recreated nodes>
@@ -29,6 +30,10 @@ use scylla_cql_core::deserialize::value::{
     TupleDeserializationErrorKind,
 };
 use scylla_cql_core::frame::frame_errors::LowLevelDeserializationError;
+use scylla_cql_core::frame::response::result::{CollectionType, ColumnType, NativeType};
+use scylla_cql_core::serialize::value::SerializeValue;
+use scylla_cql_core::serialize::writers::CellWriter;
+use scylla_cql_core::value::CqlValue;
 use std::collections::{BTreeSet, HashMap, HashSet, VecDeque};
 use std::fmt::Write as _;
 use std::sync::Arc;
@@ -894,6 +899,62 @@ fn gen_random_history(r: &mut Rng, kind: &'static str, len: usize, small: bool, 
     Hist { kind, tables, tokens: toks.into_iter().collect(), dcs: vec![0, 1, 2], ops }
 }
 
+/// The value bytes produced by the crate's own CQL serialiser for the tuple (a, b, [(uuid, shard)]) against
+/// tuple<bigint, bigint, list<tuple<uuid, int>>> (as the repository's unit tests build tablet payloads),
+/// without the outer 4-byte length.
+fn serializer_bytes(a: i64, b: i64, raw: &[(u128, i32)]) -> Result<Vec<u8>, String> {
+    let typ = ColumnType::Tuple(vec![
+        ColumnType::Native(NativeType::BigInt),
+        ColumnType::Native(NativeType::BigInt),
+        ColumnType::Collection {
+            frozen: false,
+            typ: CollectionType::List(Box::new(ColumnType::Tuple(vec![
+                ColumnType::Native(NativeType::Uuid),
+                ColumnType::Native(NativeType::Int),
+            ]))),
+        },
+    ]);
+    let value = CqlValue::Tuple(vec![
+        Some(CqlValue::BigInt(a)),
+        Some(CqlValue::BigInt(b)),
+        Some(CqlValue::List(
+            raw.iter()
+                .map(|(h, s)| CqlValue::Tuple(vec![Some(CqlValue::Uuid(Uuid::from_u128(*h))), Some(CqlValue::Int(*s))]))
+                .collect(),
+        )),
+    ]);
+    let mut data = Vec::new();
+    SerializeValue::serialize(&value, &typ, CellWriter::new(&mut data)).map_err(|e| format!("{:?}", e).replace(' ', "_"))?;
+    Ok(data[4..].to_vec())
+}
+/// Pe case: "<a> <b> <host.shard,..>" -> "<bytes of the crate's serialiser> <bytes of the harness' payload_bytes> <decode tag>"
+fn run_pe(a: i64, b: i64, raw: &[(u128, i32)]) -> String {
+    let ser = match serializer_bytes(a, b, raw) {
+        Ok(v) => hex_bytes(&v),
+        Err(e) => format!("err:{}", e),
+    };
+    let own = payload_bytes(a, b, raw);
+    let tag = decode_tag(&Some(own.clone())).unwrap_or("panic".into());
+    format!("{} {} {}", ser, hex_bytes(&own), tag)
+}
+fn pe_case(a: i64, b: i64, raw: &[(u128, i32)]) -> String {
+    format!("Pe {} {} {}", hex_i(a as i128), hex_i(b as i128), join(raw, ",", |(h, s)| format!("{}.{}", hex_u(*h), hex_i(*s as i128))))
+}
+fn p_pe(c: &str) -> (i64, i64, Vec<(u128, i32)>) {
+    let f: Vec<&str> = c.split_whitespace().collect();
+    (
+        p_i(f[1]) as i64,
+        p_i(f[2]) as i64,
+        p_list(f[3], ',')
+            .iter()
+            .map(|x| {
+                let (h, s) = x.split_once('.').unwrap();
+                (p_u(h), p_i(s) as i32)
+            })
+            .collect(),
+    )
+}
+
 /// Byte strings for the "tablets-routing-v1" value: the valid encoding of (a, b, raw) with up to two
 /// corruptions (structured: wrong lengths / counts / nulls / missing fields; unstructured: truncation,
 /// trailing bytes, flipped bytes, trash).
@@ -1078,6 +1139,11 @@ fn main() {
     let mut out = Out::create(&a.out);
     if let Some(p) = &a.replay {
         for c in read_cases(p) {
+            if c.starts_with("Pe ") {
+                let (a, b, raw) = p_pe(&c);
+                out.case(&c, &run_pe(a, b, &raw));
+                continue;
+            }
             if let Some(hx) = c.strip_prefix("Pb ") {
                 let o = decode_tag(&p_hexbytes(hx.trim())).unwrap_or("panic".into());
                 out.case(&c, &o);
@@ -1108,6 +1174,30 @@ fn main() {
         let b = gen_payload_case(&mut r);
         let o = decode_tag(&b).unwrap_or("panic".into());
         out.case(&format!("Pb {}", match &b { None => "N".to_string(), Some(b) => hex_bytes(b) }), &o);
+    }
+    // Pe: the specification's encoder enc_payload against the crate's serialiser and the harness' encoder (2 per random history)
+    for _ in 0..a.n * 2 {
+        let small = r.chance(1, 3);
+        let x = gen_bound(&mut r, small, &[]);
+        let y = gen_bound(&mut r, small, &[x]);
+        let nrep = *r.pick(&[0usize, 1, 2, 3, 5, 8]);
+        let raw: Vec<(u128, i32)> = (0..nrep)
+            .map(|_| {
+                let h = match r.below(4) {
+                    0 => r.below(8) as u128,
+                    1 => u128::MAX - r.below(3) as u128,
+                    _ => ((r.u64() as u128) << 64) | r.u64() as u128,
+                };
+                let s = match r.below(10) {
+                    0 => -(r.range(1, 5) as i32),
+                    1 => i32::MAX,
+                    2 => i32::MIN,
+                    _ => r.below(64) as i32,
+                };
+                (h, s)
+            })
+            .collect();
+        out.case(&pe_case(x, y, &raw), &run_pe(x, y, &raw));
     }
     for i in 0..a.n {
         let h = match i % 4 {
